@@ -4,7 +4,7 @@
 // of that reactor under that reaction type and nothing else; idempotent), C07 (removal/drop releases the handle),
 // C16 (iter_reactors lists every registration's reactor), plus RevokeToken / ReactorType kernels (C06, C16).
 
-#[cfg(not(feature = "thorough"))] const N: usize = 4;   // stated bound: entries in one entity's table
+#[cfg(not(feature = "thorough"))] const N: usize = 3;   // stated bound: entries in one entity's table
 #[cfg(feature = "thorough")]      const N: usize = 7;   // crosses SmallVec's inline capacity of 6
 const NSYS: u8 = 3;
 const NRT: u8 = 8;                                       // 4 kinds x 2 type ids
@@ -54,6 +54,8 @@ fn any_table(t: &mut EntityReactors, sh_sys: &mut [u8; N], sh_rt: &mut [u8; N]) 
 /// the entries whose (kind, type id) equals the query, in insertion order; `count` equals that number;
 /// `iter_reactors` yields every entry's reactor in order.
 #[kani::proof]
+#[kani::stub(core::any::TypeId::of, crate::vh::stub_typeid_of)]
+#[kani::stub(<core::any::TypeId as crate::vh::PEq>::eq, crate::vh::stub_typeid_eq)]
 #[kani::unwind(9)]
 fn entreactors_dispatch_exact()
 {
@@ -92,6 +94,8 @@ fn entreactors_dispatch_exact()
 /// duplicates); every other entry is still there in the same relative order (locality); a second remove changes
 /// nothing (idempotence); removing an absent pair changes nothing.
 #[kani::proof]
+#[kani::stub(core::any::TypeId::of, crate::vh::stub_typeid_of)]
+#[kani::stub(<core::any::TypeId as crate::vh::PEq>::eq, crate::vh::stub_typeid_eq)]
 #[kani::unwind(9)]
 fn entreactors_remove_complete_local()
 {
@@ -131,6 +135,8 @@ fn entreactors_remove_complete_local()
 /// C07: handles stored in an entity's table are owners of the reactor: removing the entry, or dropping the whole
 /// table (entity despawned), releases them; nothing is released earlier.
 #[kani::proof]
+#[kani::stub(core::any::TypeId::of, crate::vh::stub_typeid_of)]
+#[kani::stub(<core::any::TypeId as crate::vh::PEq>::eq, crate::vh::stub_typeid_eq)]
 #[kani::unwind(9)]
 fn entreactors_handle_conservation()
 {
@@ -171,6 +177,8 @@ fn entreactors_handle_conservation()
 
 /// C06/C16: `ReactorType::get_entity` returns the entity for the five entity-scoped kinds and None otherwise.
 #[kani::proof]
+#[kani::stub(core::any::TypeId::of, crate::vh::stub_typeid_of)]
+#[kani::stub(<core::any::TypeId as crate::vh::PEq>::eq, crate::vh::stub_typeid_eq)]
 fn reactortype_get_entity()
 {
     let e = ent(any_below(200) as u32);
@@ -191,6 +199,8 @@ fn reactortype_get_entity()
 /// C16: `RevokeToken::iter_unique_entities` yields each entity named by the token exactly once, in first-occurrence
 /// order, and nothing for type-wide triggers (so per-entity local data is cleaned up once per entity).
 #[kani::proof]
+#[kani::stub(core::any::TypeId::of, crate::vh::stub_typeid_of)]
+#[kani::stub(<core::any::TypeId as crate::vh::PEq>::eq, crate::vh::stub_typeid_eq)]
 #[kani::unwind(6)]
 fn revoketoken_unique_entities()
 {
@@ -234,6 +244,8 @@ fn revoketoken_unique_entities()
 }
 
 #[kani::proof]
+#[kani::stub(core::any::TypeId::of, crate::vh::stub_typeid_of)]
+#[kani::stub(<core::any::TypeId as crate::vh::PEq>::eq, crate::vh::stub_typeid_eq)]
 #[kani::unwind(9)]
 fn entreactors_witness()
 {
